@@ -226,6 +226,13 @@ def entry_case(args) -> Dict[str, Any]:
     entry, mid, name, lg, dm, am, tc = args
     from .. import clx
     import pyrtma.client as C
+    import pyrtma.core_defs as cd
+
+    if name == "" and mid != 0:
+        listed = [k[4:] for k, v in vars(cd).items() if k.startswith("MID_") and v == mid]
+        name_expected = listed[0] if listed else ""
+    else:
+        name_expected = name
 
     mmx.fresh_gc()
     w = clx.ClientWorld(timecode=tc)
@@ -260,7 +267,7 @@ def entry_case(args) -> Dict[str, Any]:
             probs.append({"prop": "C06", "kind": "handshake-frames", "got": [f.msg_type for f in frames]})
         else:
             f_lg, f_dm, f_am, f_mid, f_pid, f_name = P.P_CONNECT_V2.unpack(v2[0].payload)
-            want = (int(lg), int(dm), int(am), mid, name)
+            want = (int(lg), int(dm), int(am), mid, name_expected)
             got = (f_lg, f_dm, f_am, f_mid, P.cname(f_name))
             if got != want:
                 probs.append({"prop": "C06", "kind": "options-on-wire", "entry": entry, "want": list(want), "got": list(got)})
@@ -275,9 +282,9 @@ def entry_case(args) -> Dict[str, Any]:
         else:
             k = infos[0]
             exp_id = mid if mid else c.module_id
-            if (k[1], k[2], k[3], k[4]) != (exp_id, name, int(lg), int(not am)):
+            if (k[1], k[2], k[3], k[4]) != (exp_id, name_expected, int(lg), int(not am)):
                 probs.append({"prop": "C06", "kind": "options-at-manager", "entry": entry,
-                              "want": [exp_id, name, int(lg), int(not am)], "got": list(k[1:5])})
+                              "want": [exp_id, name_expected, int(lg), int(not am)], "got": list(k[1:5])})
             if mid == 0 and not (DYN0 <= c.module_id < DYNMAX):
                 probs.append({"prop": "C06", "kind": "client-did-not-learn-dynamic-id", "got": c.module_id})
         # daemon flag is only visible in the manager's own table
@@ -414,7 +421,7 @@ def run(tier: str) -> int:
                 items.append(("reconnect", (tc, ncl, how)))
     n_entry = 0
     for entry in ("connect", "connect-positional", "client_context"):
-        for mid in (0, 33):
+        for mid in (0, 33, 5):  # 5 is listed in the core module-id table (QUICK_LOGGER): an empty name is filled in from it, a given name is kept
             for name in ("", "n"):
                 for lg, dm, am in itertools.product((False, True), repeat=3):
                     for tc in ((False,) if tier == "quick" else (False, True)):
